@@ -19,7 +19,7 @@ func init() {
 	})
 	register(&Rule{
 		Name:     "CONSTAFFINITY",
-		Doc:      "a function whose name says which number kind it formats (…i64…/…int64… vs …f64…/…float64…) reserves space with the constant of the same kind (MaxInt64StringLen vs MaxFloat64StringLen): the float formatter needs up to 32 bytes, the integer bound is 21; and the two constants are at least as large as the longest text of their kind (20 bytes for \"-9223372036854775808\", 24 for \"-1.7976931348623157e+308\") — the native formatter writes without a bounds check",
+		Doc:      "a function whose name says which number kind it formats (…i64…/…int64… vs …f64…/…float64…) reserves space with the constant of the same kind (MaxInt64StringLen vs MaxFloat64StringLen): the float formatter needs up to 32 bytes, the integer bound is 21; and the two constants are at least as large as the longest text of their kind (20 bytes for \"-9223372036854775808\", 25 for \"-0.0000012345678901234567\": the native formatter prints 1e-6 <= |x| < 1e21 without an exponent, so 17 digits follow \"-0.00000\") — the native formatter writes without a bounds check",
 		Configs:  "N",
 		Floor:    map[string]int{"N": 2},
 		Controls: 1,
@@ -105,9 +105,10 @@ func runSwapBoth(rc *RuleCtx) {
 func runConstAffinity(rc *RuleCtx) {
 	w := rc.W
 	// the reserved sizes themselves: the longest decimal int64 is "-9223372036854775808" (20 bytes), the
-	// longest shortest-round-trip float64 is "-1.7976931348623157e+308" (24 bytes)
+	// longest shortest-round-trip float64 is "-0.0000012345678901234567" (25 bytes: plain notation down to 1e-6;
+	// the longest exponent form "-1.7976931348623157e+308" has 24)
 	cv := w.constVals("internal/native/types", "MaxInt64StringLen", "MaxFloat64StringLen")
-	for n, min := range map[string]int64{"MaxInt64StringLen": 20, "MaxFloat64StringLen": 24} {
+	for n, min := range map[string]int64{"MaxInt64StringLen": 20, "MaxFloat64StringLen": 25} {
 		rc.Examined++
 		good := cv[n] >= min
 		rc.add(nil, "internal/native/types", "constant "+n, w.Pkg("internal/native/types").Syntax[0].Pos(), map[bool]string{true: "discharged", false: "violated"}[good],
